@@ -80,3 +80,53 @@ Proof.
   - intros _ i r Hr [Hwf Hsem]. destruct (reduced_bit_depth_8_or_less_sem _ _ _ Hwf Hr Hsem). split; auto.
   - intros il r _ Hr. eapply leaf_interlace; eauto.
 Qed.
+
+(* ================================================================ C03: with alpha optimisation *)
+From OxiVerif Require Import Proofs.LiftAlpha.
+
+(* well-formed and alpha-equivalent to [pic] *)
+Definition ameans (pic : picture) (i : image) : Prop := exists pic', means pic' i /\ pic_aequiv pic pic'.
+
+Lemma ameans_exact pic i r : ameans pic i -> (forall pic', means pic' i -> means pic' r) -> ameans pic r.
+Proof. intros (p' & M & A) H. exists p'. split; auto. Qed.
+
+Lemma ameans_alpha pic i r : ameans pic i ->
+  (forall pic', wf i -> sem i = Some pic' -> (exists pic'', sem r = Some pic'' /\ pic_aequiv pic' pic'') /\ wf r) -> ameans pic r.
+Proof.
+  intros (p' & [W S] & A) H. destruct (H p' W S) as [(p'' & S' & A') W']. exists p''. split; [split; auto|]. eapply pic_aequiv_trans; eauto.
+Qed.
+
+Definition cand_ameans (pic : picture) (ev : rd_event) : Prop :=
+  match ev with EvSubmit i _ => ameans pic i | _ => True end.
+
+Theorem perform_reductions_alpha_partial (L : leaves) e o img pic baseline evs :
+  scale_16 o = false ->
+  ameans pic img ->
+  perform_reductions e o img = Ok (baseline, evs) ->
+  ameans pic baseline /\ Forall (cand_ameans pic) evs.
+Proof.
+  intros Hs Hm Hp.
+  apply (perform_reductions_inv (ameans pic) (ameans pic) (fun i H => H) e o) with (png0 := img) in Hp; auto.
+  - intros _ i r Hr Hi. eapply ameans_alpha; eauto. intros p' W S. apply (cleaned_alpha_channel_aequiv i); auto.
+  - intros _ i r Hr Hi. rewrite Hs in Hr. eapply ameans_exact; eauto. intros p' M. eapply reduced_16_to_8_means; eauto.
+  - intros _ _ i r Hr Hi. eapply ameans_exact; eauto. intros p' [W S]. destruct (reduced_rgb_to_grayscale_sem _ _ _ W Hr S). split; auto.
+  - intros _ i r Hr Hi. eapply ameans_exact; eauto. intros p' [W S]. destruct (expanded_bit_depth_to_8_sem _ _ _ W Hr S). split; auto.
+  - intros _ i r Hr Hi. destruct (optimize_alpha o).
+    + eapply ameans_alpha; eauto. intros p' W S. apply (reduced_palette_aequiv i); auto.
+    + eapply ameans_exact; eauto. intros p' [W S]. destruct (reduced_palette_sem _ _ _ W Hr S). split; auto.
+  - intros _ i r Hr Hi. eapply ameans_exact; eauto. intros p' [W S]. destruct (sorted_palette_sem _ _ _ W Hr S). split; auto.
+  - intros _ i r Hr Hi. destruct (optimize_alpha o).
+    + eapply ameans_alpha; eauto. intros p' W S. apply (reduced_alpha_channel_aequiv i); auto.
+    + eapply ameans_exact; eauto. intros p' [W S]. destruct (reduced_alpha_channel_sem _ _ _ W Hr S). split; auto.
+  - intros _ i r Hr Hi. destruct (optimize_alpha o).
+    + eapply ameans_alpha; eauto. intros p' W S. apply (indexed_to_channels_aequiv i r (grayscale_reduction o)); auto.
+    + eapply ameans_exact; eauto. intros p' [W S]. destruct (indexed_to_channels_sem _ _ _ _ W Hr S). split; auto.
+  - intros _ i red Hr Hi.
+    assert (Hred : ameans pic red).
+    { eapply ameans_exact; eauto. intros p' [W S]. destruct (reduced_to_indexed_sem _ _ _ _ W Hr S). split; auto. }
+    split; [exact Hred|]. intros r Hr2. eapply ameans_exact; eauto. intros p' [W S]. destruct (sorted_palette_sem _ _ _ W Hr2 S). split; auto.
+  - intros _ i r Hr Hi. eapply ameans_exact; eauto. intros p' M. eapply leaf_battiato; eauto.
+  - intros _ i r Hr Hi. eapply ameans_exact; eauto. intros p' M. eapply leaf_mzeng; eauto.
+  - intros _ i r Hr Hi. eapply ameans_exact; eauto. intros p' [W S]. destruct (reduced_bit_depth_8_or_less_sem _ _ _ W Hr S). split; auto.
+  - intros il r _ Hr. eapply ameans_exact; eauto. intros p' M. eapply leaf_interlace; eauto.
+Qed.
